@@ -41,11 +41,11 @@ func runOverlap(w *world, c *Overlap, res *result) {
 	for i := 0; i < c.Handles; i++ {
 		if c.Side == "trace" {
 			t := id()
-			w.opTracer(t, 0, i%2 == 0, 0)
+			w.opTracer(t, 0, 0, i%2 == 0, 0)
 			trs = append(trs, t)
 		} else {
 			k := id()
-			w.opMeter(k, -1, i%2 == 0, 0)
+			w.opMeter(k, -1, -1, i%2 == 0, 0)
 			if x := w.opInst(id(), k, root.Intn(8), nil, false, 0); x != nil {
 				ins = append(ins, x)
 			}
